@@ -772,9 +772,13 @@ class HTTPConnectionPool(ConnectionPool, RequestMethods):
         # for future rewinds in the event of a redirect/retry.
         body_pos = set_file_position(body, body_pos)
 
+        # Resolve the timeout before taking a connection: a value rejected
+        # here must not reach the cleanup below, which would put back a
+        # connection that was never taken from the pool.
+        timeout_obj = self._get_timeout(timeout)
+
         try:
             # Request a connection from the queue.
-            timeout_obj = self._get_timeout(timeout)
             conn = self._get_conn(timeout=pool_timeout)
 
             conn.timeout = timeout_obj.connect_timeout  # type: ignore[assignment]
